@@ -256,6 +256,9 @@ def run(ck, F, tier):
     c09.run(RuleAlias(ck, "L8", only=lambda r_, k_: r_ in ("Y2", "Y3")), F, "quick")
     from . import c16
     c16.run(RuleAlias(ck, "L9", only=lambda r_, k_: r_ == "Q5"), F, "quick")
+    # one result line per Eb/N0 needs one final report per point from the simulation (C13-G5)
+    from . import c13
+    c13.run(RuleAlias(ck, "L6", only=lambda r_, k_: r_ == "G5" and k_.startswith("final-report")), F, "quick")
 
 
 def encode_framing_rules(ck, F, b, t, wr, rd, enc):
